@@ -88,7 +88,7 @@ fn replay_case(property: &str, case: &Value, rep: &mut Report) -> Result<(), Str
                 Err(format!("property {} has no history monitor", property))
             }
         }
-        "merge" | "ops" => api::replay(property, case, rep),
+        "merge" | "merge-wide" | "ops" => api::replay(property, case, rep),
         "bytes" => bytes::replay(property, case, rep),
         "cli" => cli::replay(case, rep),
         other => Err(format!("unknown case kind {:?}", other)),
